@@ -14,12 +14,17 @@ RULES = {
     "metrics/src/key.rs": [(ATOMIC, r".v_\1(")],
     "metrics/src/atomics.rs": [(ATOMIC, r".v_\1(")],
     "metrics-util/src/storage/reservoir.rs": [(ATOMIC, r".v_\1(")],
+    "metrics-util/src/storage/bucket.rs": [(ATOMIC, r".v_\1("), (r"\.get\(\)\.write\(", ".get().v_write("),
+                                           (r"const BLOCK_SIZE: usize = 64;", "const BLOCK_SIZE: usize = 2;")],
     "metrics-util/src/registry/recency.rs": [(ATOMIC, r".v_\1(")],
+    "metrics-util/src/recoverable.rs": [(r"\.upgrade\(\)", ".v_upgrade()"), (r"Arc::try_unwrap\(", "metrics::verif_sched::v_try_unwrap("),
+                                        (r"(Arc|Weak)::strong_count\(", "metrics::verif_sched::v_strong_count("), (r"\.strong_count\(\)", ".v_strong_count_m()")],
     "metrics-exporter-dogstatsd/src/storage.rs": [(ATOMIC, r".v_\1(")],
 }
 USE = {
     "metrics": "#[allow(unused_imports)]\nuse crate::verif_sched::{VAtomic as _, VArith as _, VPtr as _};\n",
-    "other": "#[allow(unused_imports)]\nuse metrics::verif_sched::{VAtomic as _, VArith as _, VPtr as _};\n",
+    "other": "#[allow(unused_imports)]\nuse metrics::verif_sched::{VAtomic as _, VArith as _, VPtr as _, VWeak as _, VCountM as _};\n",
+    "metrics-util/src/storage/bucket.rs": "#[allow(unused_imports)]\nuse metrics::verif_sched::{VAtomic as _, VArith as _, VPtr as _};\n#[allow(unused_imports)]\nuse crate::verif_cb::VCb as _;\n",
 }
 
 
@@ -49,7 +54,7 @@ def main(dst, repo="/repo"):
         for pat, rep in rules:
             head, k = re.subn(pat, rep, head)
             n += k
-        head = insert_use(head, USE["metrics" if rel.startswith("metrics/") else "other"])
+        head = insert_use(head, USE.get(rel, USE["metrics" if rel.startswith("metrics/") else "other"]))
         open(p, "w").write(head + tail)
         print(f"instrumented {rel}: {n} sites")
     lib = os.path.join(dst, "metrics/src/lib.rs")
